@@ -63,6 +63,7 @@ type workItem struct {
 }
 
 func (e *Engine) Explore(fn *ssa.Function, opts ExploreOpts) *HarnessResult {
+	e.crossSeen.Store(0)
 	t0 := time.Now()
 	res := &HarnessResult{Harness: fn.Name(), Covers: map[string]int{}, Funcs: map[string]int{}, Stubs: map[string]int{}}
 	res.WantCovers = staticCovers(fn)
